@@ -29,11 +29,22 @@ fn check(source: &str) -> String {
     samlang_parser::parse_source_module_from_text(source, mod_ref, &mut heap, &mut error_set);
   let sources = HashMap::from([(mod_ref, module)]);
   let _ = samlang_checker::verif_hooks_c07::take();
+  let _ = samlang_checker::verif_hooks_c07::take_scopes();
   let _ = samlang_checker::type_check_sources(&sources, &mut error_set);
   // hook (cfg(samlang_verif)): the abstract pattern lists the checker handed to the analysis
   let mut abs = String::new();
   for (entry, nodes) in samlang_checker::verif_hooks_c07::take() {
     abs.push_str(&format!(" {entry}:{}", hex(nodes.join(";").as_bytes())));
+  }
+  // hook: the type-parameter scope of every typing context, `#S <class>:<hex of "T=Bound,U=-">`
+  abs.push_str(" #S");
+  for (class, tparams) in samlang_checker::verif_hooks_c07::take_scopes() {
+    let r = tparams
+      .iter()
+      .map(|(n, b)| format!("{n}={}", b.as_deref().unwrap_or("-")))
+      .collect::<Vec<_>>()
+      .join(",");
+    abs.push_str(&format!(" {class}:{}", hex(r.as_bytes())));
   }
   if !error_set.has_errors() {
     return format!("ok #A{abs}");
